@@ -318,7 +318,11 @@ func InitProtect(init *InitSegment, key, iv []byte, scheme string, kid UUID, pss
 		iv8 := iv
 		iv = make([]byte, 16)
 		copy(iv, iv8)
+	} else {
+		// The tenc box gets its own copy: the caller may re-use its IV buffer
+		iv = append([]byte{}, iv...)
 	}
+	kid = append(UUID(nil), kid...) // ... and its own copy of the key ID
 	var err error
 	ipd.Trex = moov.Mvex.Trex
 	sinf := SinfBox{}
@@ -472,6 +476,8 @@ func EncryptFragment(f *Fragment, key, iv []byte, ipd *InitProtectData) error {
 	if len(iv) != 16 {
 		return fmt.Errorf("iv must be 16 bytes")
 	}
+	// The senc box keeps the first IV: give it its own copy, the caller may re-use its IV buffer
+	iv = append([]byte{}, iv...)
 	if len(f.Moof.Trafs) != 1 {
 		return fmt.Errorf("only one traf supported")
 	}
